@@ -69,9 +69,62 @@ if "twisted" not in sys.modules:
 else:
     STUBBED = False
 
-import eliot  # noqa: E402
-from eliot import logwriter  # noqa: E402
-from eliot.logwriter import ThreadedWriter  # noqa: E402
+class LazyQueue(object):
+    """Stands for queue.SimpleQueue wherever logwriter.py creates one (at import, in a default
+    argument, in __init__ ...): a cooperative FIFO bound to whatever scheduler is current when
+    it is used, recording who put what.  All instances are emptied between paths."""
+
+    instances = []
+    log = None  # the current path's event log
+
+    def __init__(self, *a, **kw):
+        self.items = []
+        LazyQueue.instances.append(self)
+
+    def would_block(self, worker):
+        return not self.items
+
+    def put(self, item, block=True, timeout=None):
+        if isinstance(item, dict) and LazyQueue.log is not None:
+            LazyQueue.log.append(("put", item["id"]))
+        self.items.append(item)
+
+    def get(self, block=True, timeout=None):
+        from engine.sched import Deadlock, _Kill
+
+        sched = _CURRENT_SCHED[0]
+        w = sched.me() if sched is not None else None
+        while True:
+            if self.items:
+                if w is not None:
+                    w.blocked_on = None
+                return self.items.pop(0)
+            if w is None:
+                raise Deadlock("scheduler thread would block on an empty queue")
+            if sched.abort:
+                raise _Kill()
+            w.blocked_on = self
+            w.pause("blocked on queue")
+
+    def empty(self):
+        return not self.items
+
+    def qsize(self):
+        return len(self.items)
+
+
+import queue as _queue_module  # noqa: E402
+
+_real_simple_queue = _queue_module.SimpleQueue
+_queue_module.SimpleQueue = LazyQueue
+try:
+    import eliot  # noqa: E402
+    from eliot import logwriter  # noqa: E402
+    from eliot.logwriter import ThreadedWriter  # noqa: E402
+finally:
+    _queue_module.SimpleQueue = _real_simple_queue
+if hasattr(logwriter, "SimpleQueue"):
+    logwriter.SimpleQueue = LazyQueue
 
 PROPERTY = "C19"
 NONTRIVIAL_RULE = (
@@ -89,7 +142,7 @@ EXPLANATION = (
 )
 ASSUMPTIONS = [
     "Twisted is absent: Service.startService/stopService only flip 'running'; deferToThreadPool(reactor, pool, f) runs f on another thread and returns a handle that completes when f returns (documented contracts, not checked against Twisted)",
-    "queue.SimpleQueue is an unbounded thread-safe FIFO (SchedQueue differentially checked at start-up); threading.Thread start/join contract (SchedThread)",
+    "queue.SimpleQueue is an unbounded thread-safe FIFO: every SimpleQueue() created by logwriter.py (at import time or later) is a cooperative LazyQueue; threading.Thread start/join contract (SchedThread)",
     "threads interleave between source lines of eliot/logwriter.py",
 ]
 
@@ -149,9 +202,18 @@ def body_E1(ctx):
     saved_threading = logwriter.threading
     logwriter.threading = NS
     handles = []
+    for q in LazyQueue.instances:
+        del q.items[:]
+    LazyQueue.log = log
+    other_got = []
     try:
         writer = ThreadedWriter(wrapped, Reactor())
-        writer._queue = RecQueue(sched, log)
+        second = None
+        if sh.get("writers", 1) == 2:
+            # a second, idle writer service running at the same time: it must see none of the first one's messages
+            second = ThreadedWriter(lambda m: other_got.append(m["id"]), Reactor())
+        if not isinstance(writer._queue, LazyQueue):
+            ctx.fail("harness limitation: ThreadedWriter uses a queue of type %s that the scheduler cannot control" % type(writer._queue).__name__)
 
         def producer(p, cycle):
             def work():
@@ -163,6 +225,8 @@ def body_E1(ctx):
             return work
 
         def main():
+            if second is not None:
+                second.startService()
             for cycle in range(cycles):
                 writer.startService()
                 log.append(("started", cycle))
@@ -182,6 +246,10 @@ def body_E1(ctx):
                 log.append(("stop-completed", cycle, h.done, writer._thread.is_alive()))
                 for t in prods:
                     t.join()
+            if second is not None:
+                h2 = second.stopService()
+                h2.thread.join()
+                log.append(("second-stopped", h2.done))
 
         sched.spawn(main, "main")
         try:
@@ -211,6 +279,7 @@ def body_E1(ctx):
         before_completion = [e[1] for e in log[:pos_completed] if e[0] == "written"]
         for mid in must:
             ctx.check(mid in before_completion, "message %s was offered (call returned) before stopService() but had not been passed to the destination when stopService completed; events %r", mid, [x for x in log if x[0] != "put"])
+    ctx.check(other_got == [], "a second, idle ThreadedWriter received the messages %r that were offered to the first one", other_got)
     nfail = sum(1 for e in log if e[0] == "dest-raised")
     interleaved = sched.switches >= 4
     if interleaved or nfail:
@@ -231,17 +300,17 @@ def E1() -> bool:
 
 def _shards(tier):
     if tier == "quick":
-        cfgs = [{"producers": 1, "msgs": 2, "P": 2, "F": 1}]
+        cfgs = [{"producers": 1, "msgs": 2, "P": 2, "F": 1}, {"producers": 1, "msgs": 1, "P": 1, "F": 0, "writers": 2}]
     else:
-        cfgs = [{"producers": 1, "msgs": 2, "P": 3, "F": 2}, {"producers": 2, "msgs": 1, "P": 2, "F": 1}, {"producers": 1, "msgs": 1, "P": 2, "F": 1, "cycles": 2}]
+        cfgs = [{"producers": 1, "msgs": 2, "P": 3, "F": 2}, {"producers": 2, "msgs": 1, "P": 2, "F": 1}, {"producers": 1, "msgs": 1, "P": 2, "F": 1, "cycles": 2}, {"producers": 1, "msgs": 2, "P": 2, "F": 0, "writers": 2}]
     out = []
     for base in cfgs:
-        out += [dict(base, prefix=p) for p in enumerate_prefixes(body_E1, "X", {}, base, 6)]
+        out += [dict(base, prefix=p) for p in enumerate_prefixes(body_E1, "X", {}, base, 9 if base.get("writers") else 6)]
     return out
 
 
 OBLIGATIONS = [
     Ob("E1", E1, body_E1, "X", desc="producers / reader / stop request at line granularity in logwriter.py with destination failure masks", functions=["ThreadedWriter.__init__", "startService", "stopService", "__call__", "_reader"],
        shards=_shards, twin=[{"producers": 1, "msgs": 2, "P": 2, "F": 1, "twin_label": "failure-then-more"}, {"producers": 1, "msgs": 2, "P": 2, "F": 1, "twin_label": "offered-before-stop"}], timeout={"quick": 100, "thorough": 1500},
-       bounds={"quick": "1 producer x 2 messages racing the stop request and the reader, <= 2 preemptions, <= 1 destination failure", "thorough": "<= 3 preemptions / 2 failures; 2 producers x 1 message; a second start/stop cycle"}),
+       bounds={"quick": "1 producer x 2 messages racing the stop request and the reader, <= 2 preemptions, <= 1 destination failure; the same with a second idle ThreadedWriter running (<= 1 preemption)", "thorough": "<= 3 preemptions / 2 failures; 2 producers x 1 message; a second start/stop cycle"}),
 ]
